@@ -110,7 +110,7 @@ impl Prop for C04 {
         }
         // one unit under two prefixes and two powers on either side of * and / (in particular
         // pairs with equal prefix x power: km^2 vs Mm, cm^3 vs mm^2, dm^3 vs mm)
-        let pfx: Vec<&str> = if tier == Tier::Thorough { std::iter::once("").chain(tables::PREFIXES.iter().map(|p| p.0)).collect() } else { vec!["", "k", "G", "c", "m", "d", "n"] };
+        let pfx: Vec<&str> = if tier == Tier::Thorough { std::iter::once("").chain(tables::PREFIXES.iter().map(|p| p.0).filter(|p| tables::typeable(p))).collect() } else { vec!["", "k", "G", "c", "m", "d", "n"] };
         for u in ["m", "s", "g"].iter().take(tier.pick(2, 3)) {
             for p1 in pfx.iter().copied() {
                 for n1 in 1..=3i64 {
